@@ -4,17 +4,32 @@ Specification  specs/Orient.tla  (see its header): exact integer reciprocal metr
 rings = shells of equal Q, the block machine of unitcell.filter_pairs transcribed branch by branch (with
 the block ends as written, `len(c2as) - 1`, and repaired), "indexes the same" by its meaning (a member of
 Aut+(G), computed by brute force, maps one hkl pair on the other), orient()'s nearest / crange lookup
-and ubi_equiv's de-duplication.
+and ubi_equiv's de-duplication.  Instance set = named lattices (21, three of them long-axis forms) x Scales:
+the cell (id, k) is the lattice `id` with every edge multiplied by 2^k (k = -3 .. 7: edges from ~0.5 A to
+~1300 A); the machine is scale free (it compares cosines), the orientations obey the scale law
+orient(s.cell, g/s) = s.orient(cell, g)  (Orient.tla, SCALE / ScaleLaw).
 
 TLC runs
-  Orient_q / Orient_t   MODE "rule": every cell x ordered ring pair x tie rule x block-end variant;
+  Orient_q / Orient_t   MODE "rule": every cell x ordered ring pair (quick: r1 <= r2 among the first 3 rings; the
+                        trace run below covers every recorded ring pair) x tie rule x block-end variant;
                         invariants Complete (repaired ends), Irredundant, NoCrash, BlocksExact, DedupAgrees,
-                        EvenBlocks, TrueFound, CellLaws (Aut+ is a group of the expected order; ring boxes complete)
+                        EvenBlocks, TrueFound, CellLaws (Aut+ is a group of the expected order; ring boxes complete),
+                        ScaleLaw (integer side: rings, Aut+, sort keys, the 0.98 test of m.G are those of G)
   Orient_asis           block ends as written: Complete must FAIL (design-level counterexample, F4)
   Orient_trace_q / _t   MODE "trace": the sorted pair order recorded from the REAL filter_pairs is validated
                         (permutation of ring1 x ring2, exact cosines never decrease) and the machine is run on
                         it for both block-end variants -> expected kept list, per pair the equivalent kept
-                        entries, per observed angle and lookup mode the candidates and their classes
+                        entries, per observed angle and lookup mode the candidates and their classes; one trace
+                        line stands for all scales of the cell at which exactly this order was recorded.
+                        An order the specification rejects (what filter_pairs was handed is not the cosine table
+                        of ring1 x ring2) is reported as a violation of the tree (kind "trace") unless the harness
+                        cannot attribute it to the tree, and the property is then judged without the machine.
+
+Instances replayed: every cell of the configuration at k = 0 with every rotation, plus the same cell at other scales
+(quick: the smallest, the largest and one seed-chosen scale in between; thorough: all of Scales) with one
+seed-chosen rotation each.  Every instance goes through every route below and is judged on its own; in addition
+the scale law is compared bit for bit against the k = 0 instance (kept list, cosines, BT = s.BT0, UBIlist =
+s.UBIlist0): a difference there is a conformance note - the verdict is the instance's own judgement.
 
 Binding (mode A, with the tie order of the unstable float sort taken from the code - see Orient.tla)
   unitcell.unitcell(cell, centring).makerings      ring table must be the model's (else the cell is set aside:
@@ -30,9 +45,15 @@ Binding (mode A, with the tie order of the unstable float sort taken from the co
                                                    of the exact metric, harness arithmetic)
       property:    some member of UBIlist equals the true UBI up to a member of Aut+(G) (integer hkl for every
                    reflection of the grain), right handed, the cell's metric; no two members related by an
-                   integer matrix
+                   integer matrix.  Judged from the hkl pairs and Aut+ alone (the number of inequivalent pairs per
+                   angle is counted on the pairs, not on a kept list), whether or not the kept list conforms.
       conformance: UBIlist = exactly one Busing-Levy orientation per class of the model's candidates
   cImageD11.quickorient(g1, g2; BT cached by the code)  == Busing-Levy construction, for every kept pair
+  the formula itself, for EVERY hkl pair with |cos| < 0.98 given its true indices (no lookup in between): the
+  result must be the generating UBI
+      unitcell.orient_BL(B, ha, hb, g1, g2)                  python triads
+      unitcell.BTmat(ha, hb, B, BI) + cImageD11.quickorient  the C kernel with a freshly made BT
+      indexing.ubi_fit_2pks(UBI, g1, g2)                     re-fit of the generating UBI to its own pair
 """
 from __future__ import print_function
 import os, sys, json, math, time, glob
@@ -41,7 +62,7 @@ import common
 import c05_lib as L
 
 PROP = "C05"
-RULE_ACTIONS = ["PrintCell", "SortPairs", "Cluster", "SkipBlock", "KeepSingle", "KeepFirst", "TestSame", "TestNew",
+RULE_ACTIONS = ["Tables", "PrintCell", "SortPairs", "Cluster", "SkipBlock", "KeepSingle", "KeepFirst", "TestSame", "TestNew",
                 "CloseBlock", "Finish", "Lookup", "Dedup"]      # KeepCrash: unreachable (invariant NoCrash)
 MODES = (0, 2, 710)
 
@@ -120,14 +141,15 @@ def ring_pairs(tier, nr):
     return [(a, b) for a in range(1, nr + 1) for b in range(1, nr + 1)]
 
 
-def check_floats(rc, real, q1, q2):
+def check_floats(rc, real, q1, q2, table=True):
     """cosangles_many, cangs, anglehkls against the exact cosines"""
     probs = []
     G = rc.G
     s12 = math.sqrt(q1 * q2)
-    exact = np.array([[float(np.dot(a, np.dot(G, b))) / s12 for b in real["h2"]] for a in real["h1"]])
-    if real["c2a"].shape != exact.shape or not L.close(real["c2a"], exact, 1.0):
-        probs.append("cosangles_many differs from the exact cosines")
+    if table:
+        exact = np.array([[float(np.dot(a, np.dot(G, b))) / s12 for b in real["h2"]] for a in real["h1"]])
+        if real["c2a"].shape != exact.shape or not L.close(real["c2a"], exact, 1.0):
+            probs.append("cosangles_many differs from the exact cosines")
     for (a, b), c in zip(real["kept"], real["cangs"]):
         e = float(np.dot(a, np.dot(G, b))) / s12
         if abs(c - e) > 1e-9:
@@ -142,7 +164,7 @@ def check_quickorient(rc, rt, real, U):
     """cImageD11.quickorient with the BT matrix cached by the code == Busing-Levy construction"""
     probs = []
     UB = np.dot(U, rc.B)
-    scale = max(1.0, float(np.abs(rc.BI).max()))
+    scale = float(np.abs(rc.BI).max())
     for (a, b), BT in zip(real["kept"], real["matrs"]):
         g1 = np.dot(UB, np.array(a, float))
         g2 = np.dot(UB, np.array(b, float))
@@ -151,34 +173,74 @@ def check_quickorient(rc, rt, real, U):
         ubi[1] = g2
         rt.quickorient(ubi, BT)
         want = L.ubi_from_pair(rc.B, rc.BI, np.array(a, float), np.array(b, float), g1, g2)
-        if np.abs(ubi - want).max() > 1e-9 * scale + 1e-12:
+        if not np.abs(ubi - want).max() <= 1e-9 * scale + 1e-12 * rc.s:
             probs.append("quickorient with the cached BT of %s differs from the Busing-Levy UBI" % ((a, b),))
             break
         # and that UBI is B^-1 U^T (the generating grain itself)
-        if np.abs(ubi - np.dot(rc.BI, U.T)).max() > 1e-9 * scale + 1e-12:
+        if not np.abs(ubi - np.dot(rc.BI, U.T)).max() <= 1e-9 * scale + 1e-12 * rc.s:
             probs.append("orientation made from its own pair %s is not the generating UBI" % ((a, b),))
             break
     return probs
 
 
-def judge_ringpair(chk, rc, rt, r1, r2, real, model, rots, stats, xs=None, perturb=None):
-    """returns list of (kind, text, example) for one recorded ring pair.  model = trace-run output for it"""
+def scale_law_kept(rc, real, base):
+    """the kept list of the cell scaled by 2^k against the k = 0 instance, bit for bit"""
+    probs = []
+    if base is None or base.get("error") or "kept" not in base:
+        return probs
+    if real["order"] != base["order"]:
+        probs.append("scale law: the sorted pair order of the cell scaled by 2^%d differs from the unscaled cell's" % rc.k)
+    if real["kept"] != base["kept"]:
+        probs.append("scale law: the kept list of the cell scaled by 2^%d differs from the unscaled cell's (%d / %d pairs)"
+                     % (rc.k, len(real["kept"]), len(base["kept"])))
+        return probs
+    if real["cangs"] != base["cangs"]:
+        probs.append("scale law: the cosines of the kept pairs of the cell scaled by 2^%d are not bit for bit the unscaled cell's" % rc.k)
+    if not all(np.array_equal(m, m0 * rc.s) for m, m0 in zip(real["matrs"], base["matrs"])):
+        probs.append("scale law: the BT matrices of the cell scaled by 2^%d are not 2^%d times (bit for bit) the unscaled cell's"
+                     % (rc.k, rc.k))
+    return probs
+
+
+def judge_ringpair(chk, rc, rt, r1, r2, real, model, rots, stats, xs=None, perturb=None, imod=None, base=None,
+                   store=None, law=None):
+    """returns list of (kind, text, example) for one recorded ring pair of one instance (cell, k).
+    model = trace-run output for it; rots = [(index, U)]; base = the k = 0 instance's record of the same ring pair;
+    store / law = {rotation index: {call key: UBIlist}} to fill / to compare with (scale law).
+    kinds: 'property' and 'trace' are violations, 'conformance' is a note"""
     out = []
     if real.get("error"):
         crash = model["crash"].get(True)
         out.append(("property", "getanglehkls(%d,%d) raised %s%s" % (
             r1 - 1, r2 - 1, real["error"], " (the model's empty last block)" if crash else ""), None))
         return out
-    if model["bad"]:
-        raise common.MachineryError("recorded order rejected by the specification (ValidOrder): %s %d %d" % (rc.id, r1, r2))
-    mk = model["kept"]
+    bad = model["bad"]
     q1, q2 = rc.qs[r1 - 1], rc.qs[r2 - 1]
-    match = [bug for bug in (False, True) if bug in mk and L.as_pairs(mk[bug]["keptpairs"]) == real["kept"]]
+    if bad:
+        # the specification does not accept the recorded order: either the tree handed its filter_pairs something that
+        # is not the cosine table of ring1 x ring2 (a violation of the tree, reported; the property is then judged
+        # without the block machine) or the recording is broken (harness)
+        why = L.diagnose_order(rc, r1, r2, real)
+        if not why:
+            raise common.MachineryError("recorded order rejected by the specification (ValidOrder) although the hkl lists and "
+                                        "the cosine table handed to filter_pairs are those of the rings: %s %d %d" % (rc.name, r1, r2))
+        chk.notes["orders_rejected_by_specification"] = chk.notes.get("orders_rejected_by_specification", 0) + 1
+        for w in why:
+            out.append(("trace", "getanglehkls(%d,%d): the pair order the code sorted is not one the specification accepts "
+                        "(ValidOrder): %s" % (r1 - 1, r2 - 1, w), None))
+        mk, match = {}, []
+    else:
+        mk = model["kept"]
+        match = [bug for bug in (False, True) if bug in mk and L.as_pairs(mk[bug]["keptpairs"]) == real["kept"]]
     which = match[0] if match else None
-    cat = {(False, True): "both_variants", (False,): "repaired_ends_only", (True,): "written_ends_only", (): "neither"}[tuple(match)]
+    cat = "order_rejected" if bad else {(False, True): "both_variants", (False,): "repaired_ends_only",
+                                        (True,): "written_ends_only", (): "neither"}[tuple(match)]
     stats.conform[cat] = stats.conform.get(cat, 0) + 1
-    for p in check_floats(rc, real, q1, q2):
+    for p in check_floats(rc, real, q1, q2, table=not bad):
         out.append(("property", p, None))
+    if rc.k != 0:
+        for p in scale_law_kept(rc, real, base):
+            out.append(("conformance", p, None))
     if which is None:
         # neither variant of the block machine explains the list: judge the property on the list itself
         direct = L.judge_kept_direct(rc, real, q1, q2)
@@ -187,6 +249,7 @@ def judge_ringpair(chk, rc, rt, r1, r2, real, model, rots, stats, xs=None, pertu
             out.append(("property", "kept list (not the model's): " + p, None))
         if not direct:
             chk.notes["kept_unexplained_but_valid"] = chk.notes.get("kept_unexplained_but_valid", 0) + 1
+            out.append(("conformance", "kept list is not the block machine's (but complete and irredundant)", None))
         # orient() is then judged against the repaired model's classes as far as they apply
         which_for_orient = False
     else:
@@ -199,15 +262,29 @@ def judge_ringpair(chk, rc, rt, r1, r2, real, model, rots, stats, xs=None, pertu
                         {"x": miss[0]}))
         if not rec["irredundant"]:
             out.append(("property", "kept list contains equivalent pairs", None))
-    rec = dict(mk[which_for_orient])
-    rec["_order"] = real["order"]
+    if bad:
+        rec = L.direct_rec(rc, r1, r2, real)
+        lookups = {}
+    else:
+        rec = dict(mk[which_for_orient])
+        rec["_order"] = real["order"]
+        lookups = model["lookup"].get(which_for_orient, {})
     rec["_keptpairs"] = L.as_pairs(rec["keptpairs"])
-    lookups = model["lookup"].get(which_for_orient, {})
-    for U in rots:
+    order = rec["_order"]
+    for ui, U in rots:
         for p in check_quickorient(rc, rt, real, U):
             out.append(("property", p, None))
+    # the formula's other implementations, every pair, true indices (one rotation of this instance)
+    ui, U = rots[(common.seed() + r1 + r2) % len(rots)]
+    probs, n = L.judge_direct_routes(rc, rt, imod, order, rec["small"], U)
+    stats.direct_routes += n
+    chk.case((rc.name, r1, r2, "direct", ui))
+    for p in probs:
+        out.append(("property", p, {"rot": ui}))
     nbad = {}
-    for ui, U in enumerate(rots):
+    for ui, U in rots:
+        st = store.setdefault(ui, {}) if store is not None else None
+        lw = law.get(ui) if law is not None else None
         for x in (range(rec["n"]) if xs is None else xs):
             if not rec["small"][x]:
                 if rec["nk"][x] ** 2 == q1 * q2:
@@ -217,14 +294,14 @@ def judge_ringpair(chk, rc, rt, r1, r2, real, model, rots, stats, xs=None, pertu
                 continue
             for mode in MODES:
                 probs = L.judge_orient(rc, r1, r2, rec, lookups, U, x, mode, stats, perturb=perturb,
-                                       conform=(which is not None))
-                chk.case((rc.id, r1, r2, x, ui, mode))
+                                       conform=(which is not None), store=st, law=lw)
+                chk.case((rc.name, r1, r2, x, ui, mode))
                 for kind, text in probs:
                     key = (kind, text[:60], mode)
                     nbad[key] = nbad.get(key, 0) + 1
                     if nbad[key] == 1:
                         out.append((kind, "orient(%d, U.B.%s, %d, U.B.%s%s): %s" % (
-                            r1 - 1, real["order"][x][0], r2 - 1, real["order"][x][1],
+                            r1 - 1, order[x][0], r2 - 1, order[x][1],
                             "" if mode == 0 else ", crange=%g" % L.CRS[mode], text),
                             {"x": x, "rot": ui, "mode": mode}))
     for i, (kind, text, ex) in enumerate(out):
@@ -248,7 +325,7 @@ def check_cache(rc, rec, pairs, reals):
     if len(rec.calls) != n0:
         probs.append("cached ring pairs were recomputed (%d filter_pairs calls)" % (len(rec.calls) - n0))
     # same rings, different tolerance: cache must be rebuilt and give the same lists
-    rc.cell.makerings(rc.limit, tol=0.0009)
+    rc.cell.makerings(rc.limit, tol=0.0009 / rc.s)
     if rc.ring_problems():
         return probs        # (tolerance changed the table: not this property's business)
     n0 = len(rec.calls)
@@ -261,7 +338,7 @@ def check_cache(rc, rec, pairs, reals):
             probs.append("getanglehkls(%d,%d) after makerings(tol') still returns the old cache entry" % (r1 - 1, r2 - 1))
         elif [(tuple(a), tuple(b)) for a, b in v[0]] != real["kept"]:
             probs.append("getanglehkls(%d,%d) after makerings(tol') gives a different list" % (r1 - 1, r2 - 1))
-    rc.cell.makerings(rc.limit)
+    rc.cell.makerings(rc.limit, tol=rc.tol)
     return probs
 
 
@@ -317,77 +394,139 @@ class Stats(L.OrientStats):
         self.skipped_near = 0
 
 
-def process(chk, ucmod, rt, cells, nr, tier, only=None, perturb=None):
-    """build real cells, record, run the trace specification, judge.  only = (cellid, r1, r2) for replay"""
+def instance_scales(tier, crec, idx, only_k=None):
+    """the scale exponents at which a cell is replayed: k = 0 always; quick: the two ends of Scales and one
+    seed-chosen member in between; thorough: all of Scales"""
+    if only_k is not None:
+        return [0] if only_k == 0 else [0, only_k]
+    others = sorted(k for k in crec.get("scales", [0]) if k != 0)
+    if tier != "quick" or len(others) <= 3:
+        return [0] + others
+    mid = others[1:-1]
+    return [0, others[0], mid[(common.seed() + idx) % len(mid)], others[-1]]
+
+
+def process(chk, ucmod, rt, cells, nr, tier, only=None, perturb=None, imod=None, scales=True):
+    """build the real cells (cell x scale), record, run the trace specification, judge.
+    only = (cellid, r1, r2, k) for replay; scales=False: k = 0 only (self-test)"""
     stats = Stats()
-    rcs, lines, meta = {}, [], []
+    rcs, lines, meta, linekey = {}, [], [], {}
     set_aside = {}
     with L.Recorder(ucmod) as rec:
-        for cid in sorted(cells):
+        for idx, cid in enumerate(sorted(cells)):
             if only and cid != only[0]:
                 continue
-            rc = L.RealCell(ucmod, cells[cid], nr)
-            rp = rc.ring_problems()
-            if rp:
-                set_aside[cid] = rp[:3]
-                continue
-            rcs[cid] = rc
-            rc.reals = {}
-            rc.pairs = ring_pairs(tier, nr) if not only else [(only[1], only[2])]
-            for (r1, r2) in rc.pairs:
-                real = L.record_ringpair(rc, rec, r1, r2)
-                rc.reals[(r1, r2)] = real
-                if "order" in real:
-                    lines.append({"cell": cid, "r1": r1, "r2": r2, "order": real["order"]})
-                    meta.append((cid, r1, r2))
+            ks = instance_scales(tier, cells[cid], idx, only[3] if only else None) if scales else [0]
+            nrot = len(cells[cid]["rots"])
+            for k in ks:
+                rc = L.RealCell(ucmod, cells[cid], nr, k)
+                rp = rc.ring_problems()
+                if rp:
+                    set_aside[rc.name] = rp[:3]
+                    continue
+                rcs[(cid, k)] = rc
+                # k = 0: every rotation; other scales: one, seed-chosen (the k = 0 instance keeps its results for the law)
+                rc.rotidx = list(range(nrot)) if k == 0 else [(common.seed() + idx + k) % nrot]
+                rc.reals = {}
+                rc.pairs = ring_pairs(tier, nr) if not only else [(only[1], only[2])]
+                for (r1, r2) in rc.pairs:
+                    real = L.record_ringpair(rc, rec, r1, r2)
+                    rc.reals[(r1, r2)] = real
+                    if "order" in real:
+                        key = (cid, r1, r2, json.dumps(real["order"]))
+                        if key not in linekey:
+                            lines.append({"cell": cid, "r1": r1, "r2": r2, "ks": [], "order": real["order"]})
+                            linekey[key] = len(lines)
+                        t = linekey[key]
+                        lines[t - 1]["ks"].append(k)
+                        meta.append((t, cid, k, r1, r2))
         chk.notes["cells_set_aside_ring_table_differs"] = set_aside
-        if not rcs:
+        if not any(k == 0 for (_, k) in rcs):
             raise common.MachineryError("no cell whose real ring table equals the model's: %s" % set_aside)
+        chk.notes["instances_replayed"] = sorted(rc.name for rc in rcs.values())
+        chk.notes["trace_lines"] = len(lines)
         models = tlc_trace(chk, nr, lines, tier if not only else "replay")
         viol = []
-        for t, (cid, r1, r2) in enumerate(meta, start=1):
-            rc = rcs[cid]
+        stores = {}
+        for (t, cid, k, r1, r2) in sorted(meta, key=lambda m: (m[1], m[2] != 0, m[2], m[3], m[4])):      # k = 0 first
+            rc = rcs[(cid, k)]
             real = rc.reals[(r1, r2)]
             model = models.get(t)
             if model is None:
                 raise common.MachineryError("no specification output for trace line %d" % t)
-            rots = [L.rot_matrix(r) for r in cells[cid]["rots"]]
-            res = judge_ringpair(chk, rc, rt, r1, r2, real, model, rots, stats, perturb=perturb)
+            allrots = [L.rot_matrix(r) for r in cells[cid]["rots"]]
+            rots = [(ui, allrots[ui]) for ui in rc.rotidx]
+            rc0 = rcs.get((cid, 0))
+            base = rc0.reals.get((r1, r2)) if (rc0 is not None and k != 0) else None
+            # the k = 0 instance keeps the UBIlists of the rotations its scaled siblings will use
+            need = set(ui for (c2, k2), r2c in rcs.items() if c2 == cid and k2 != 0 for ui in r2c.rotidx)
+            for c2 in [c for c in stores if c != cid]:
+                del stores[c2]                  # (a finished cell's results are no longer needed)
+            st = stores.setdefault(cid, {})
+            res = judge_ringpair(chk, rc, rt, r1, r2, real, model, rots, stats, perturb=perturb, imod=imod, base=base,
+                                 store=(_Only(st, need) if k == 0 else None), law=(st if k != 0 else None))
             chk.traces += 1
             for kind, text, ex in res:
-                viol.append((cid, r1, r2, kind, text, ex))
+                viol.append((cid, k, r1, r2, kind, text, ex))
             if len(chk.samples) < 3 and model["kept"].get(False):
-                k = model["kept"][False]
-                chk.sample({"cell": cid, "r1": r1, "r2": r2, "n_pairs": k["n"], "kept_model": k["keptpairs"][:6],
+                kk = model["kept"][False]
+                chk.sample({"cell": rc.name, "r1": r1, "r2": r2, "n_pairs": kk["n"], "kept_model": kk["keptpairs"][:6],
                             "kept_real": [list(map(list, p)) for p in real.get("kept", [])[:6]]})
         # ring pairs whose recording failed before filter_pairs returned
-        for cid, rc in rcs.items():
+        for (cid, k), rc in rcs.items():
             for key, real in rc.reals.items():
                 if "order" not in real:
-                    viol.append((cid, key[0], key[1], "property", "getanglehkls raised %s" % real.get("error"), None))
+                    viol.append((cid, k, key[0], key[1], "property", "getanglehkls failed: %s" % real.get("error"), None))
         if not only and perturb is None:
-            for cid, rc in rcs.items():
+            for (cid, k), rc in rcs.items():
+                if k != 0:
+                    continue
                 for p in check_cache(rc, rec, rc.pairs, rc.reals):
-                    viol.append((cid, 0, 0, "conformance", p, None))
+                    viol.append((cid, k, 0, 0, "conformance", p, None))
     return stats, viol, rcs
 
 
+class _Only(object):
+    """a store that keeps only the rotations somebody will compare with"""
+
+    def __init__(self, d, need):
+        self.d, self.need = d, need
+
+    def setdefault(self, ui, v):
+        return self.d.setdefault(ui, v) if ui in self.need else None
+
+
 def report(chk, cells, nr, tier, viol):
-    """one violation per (cell, ring pair, kind of failure)"""
+    """one violation per (instance, ring pair, kind of failure)"""
     seen = set()
-    conf = [v for v in viol if v[3] != "property"]
+    conf = [v for v in viol if v[4] not in ("property", "trace")]
     # differences from the model that leave the stated property intact are evidence, not violations
     chk.notes["conformance_only_differences"] = len(conf)
-    chk.notes["conformance_only_examples"] = ["%s (%d,%d): %s" % (v[0], v[1] - 1, v[2] - 1, v[4][:200]) for v in conf[:8]]
-    for cid, r1, r2, kind, text, ex in viol:
-        if kind != "property":
-            continue
+    chk.notes["conformance_only_examples"] = ["%s*2^%d (%d,%d): %s" % (v[0], v[1], v[2] - 1, v[3] - 1, v[5][:200]) for v in conf[:8]]
+    # property violations first, the unscaled instance first; a failure already reported for the unscaled cell is not
+    # repeated for its scaled copies (counted)
+    rank = {"property": 0, "trace": 1}
+    same = 0
+    for cid, k, r1, r2, kind, text, ex in sorted([v for v in viol if v[4] in rank],
+                                                 key=lambda v: (rank[v[4]], v[1] != 0, v[0], v[2], v[3], abs(v[1]))):
         key = (cid, r1, r2, kind, text[:40])
         if key in seen:
+            same += (k != 0)
             continue
         seen.add(key)
-        chk.violation("%s cell %s rings (%d,%d): %s" % (kind, cid, r1 - 1, r2 - 1, text),
-                      {"cell": cells[cid], "nr": nr, "tier": tier, "r1": r1, "r2": r2, "kind": kind, "example": ex})
+        chk.violation("%s cell %s%s rings (%d,%d): %s" % ("conformance (recorded order)" if kind == "trace" else kind, cid,
+                                                         "" if k == 0 else " with every edge x 2^%d" % k, r1 - 1, r2 - 1, text),
+                      {"cell": cells[cid], "k": k, "nr": nr, "tier": tier, "r1": r1, "r2": r2, "kind": kind, "example": ex})
+    chk.notes["violations_repeated_at_other_scales_of_the_same_cell"] = same
+
+
+def _indexing():
+    """ImageD11.indexing (for ubi_fit_2pks); None when the module cannot be imported in this environment"""
+    try:
+        from ImageD11 import indexing
+        return indexing if hasattr(indexing, "ubi_fit_2pks") else None
+    except Exception:       # noqa
+        return None
 
 
 def run(tier, replay=None):
@@ -395,11 +534,15 @@ def run(tier, replay=None):
     shadow = common.build_shadow("normal")
     common.use_shadow(shadow)
     from ImageD11 import unitcell as ucmod, cImageD11 as rt
-    chk.rule = ("TLC enumerates named lattices (exact integer reciprocal metric, centring) x ordered ring pairs of the first "
-                "NR rings x tie rules x block-end variants; for every ring pair of every lattice the real filter_pairs is "
+    imod = _indexing()
+    chk.rule = ("TLC enumerates named lattices (exact integer reciprocal metric, centring; scale free) x ordered ring pairs of "
+                "the first NR rings x tie rules x block-end variants; every lattice is instantiated at k = 0 (all rotations) and "
+                "with every edge x 2^k for the scales of the configuration (quick: both ends and one seed-chosen scale; one "
+                "seed-chosen rotation); for every ring pair of every instance the real filter_pairs is "
                 "recorded and its kept list compared with the model run on the recorded order; orient() is then called "
-                "for EVERY hkl pair with |cos| < 0.98 x rotation x (nearest, crange 0.002, crange 0.71); non-trivial = "
-                "every orient call (distinct by cell, rings, pair, rotation, mode)")
+                "for EVERY hkl pair with |cos| < 0.98 x rotation x (nearest, crange 0.002, crange 0.71), and orient_BL / "
+                "BTmat+quickorient / ubi_fit_2pks for every such pair with its true indices; non-trivial = "
+                "every orient call (distinct by instance, rings, pair, rotation, mode)")
     chk.assumptions = [
         "rings are exact shells of equal Q (cells scaled so that distinct Q are > 5 makerings tolerances apart); cells whose real "
         "ring table differs from the model's (C03 findings) are set aside and listed in the evidence",
@@ -410,7 +553,10 @@ def run(tier, replay=None):
         "nearest mode returns one candidate: when several inequivalent pairs subtend the observed angle it is judged for "
         "conformance only (counted as ambiguous_nearest); pairs with |cos| >= 0.98 are outside the code's documented domain",
         "irrational finishing (B = Cholesky factor, triads, U from exact rationals) is done by the harness in binary64; "
-        "tolerance 1e-9 relative"]
+        "tolerance 1e-9 relative",
+        "scaled instances are made from the k = 0 quantities by multiplication with exact powers of two and are given the "
+        "ring tolerance 0.001 / 2^k (makerings' tolerance is an absolute d* difference: with the default the rings of a "
+        "1000 A cell would merge, which is C03's subject)"]
     if replay:
         obj = json.load(open(replay))["case"]
         crec = obj["cell"]
@@ -421,17 +567,18 @@ def run(tier, replay=None):
         chk.violation = lambda what, o: (bad.append(what), print("  violation: %s" % what))
         ex = obj.get("example") or {}
         if "hist" in ex:
-            viol = [(crec["cell"], 1, 1) + v for v in replay_cache(chk, ucmod, crec, nr, [ex["hist"]])]
+            viol = [(crec["cell"], 0, 1, 1) + v for v in replay_cache(chk, ucmod, crec, nr, [ex["hist"]])]
         else:
             stats, viol, _ = process(chk, ucmod, rt, cells, nr, obj.get("tier", "quick"),
-                                     only=(crec["cell"], obj["r1"], obj["r2"]))
+                                     only=(crec["cell"], obj["r1"], obj["r2"], obj.get("k", 0)), imod=imod)
+            viol = [v for v in viol if v[1] == obj.get("k", 0)]
         report(chk, cells, nr, obj.get("tier", "quick"), viol)
         if bad:
             print("VIOLATION property=%s replay=%s" % (PROP, replay))
         print("%s replay: ring pair re-recorded and re-judged, %d orient calls, violations=%d" % (PROP, chk.evaluations, len(bad)))
         return 1 if bad else 0
 
-    for f in glob.glob(os.path.join(common.VERIF, "replay", PROP, "violation_*.json")):
+    for f in glob.glob(os.path.join(os.environ.get("VERIF_OUT_DIR", common.VERIF), "replay", PROP, "violation_*.json")):
         os.remove(f)
     t0 = time.time()
     cells, keptrule = tlc_rule(chk, tier)
@@ -444,9 +591,12 @@ def run(tier, replay=None):
         raise common.MachineryError("repaired model incomplete although invariant Complete passed")
     chk.notes["tlc_s"] = round(time.time() - t0, 1)
     t1 = time.time()
-    stats, viol, rcs = process(chk, ucmod, rt, cells, nr, tier)
+    stats, viol, rcs = process(chk, ucmod, rt, cells, nr, tier, imod=imod)
     chk.notes["replay_s"] = round(time.time() - t1, 1)
     chk.notes["orient_calls"] = stats.calls
+    chk.notes["scale_law_orient_calls_bit_for_bit"] = stats.law_exact
+    chk.notes["scale_law_orient_calls_differing"] = stats.law_differs
+    chk.notes["direct_route_pairs(orient_BL,BTmat+quickorient,ubi_fit_2pks)"] = stats.direct_routes
     chk.notes["kept_lists_equal_model"] = stats.conform
     chk.notes["orient_multi_class_lookups"] = stats.multi
     chk.notes["orient_cross_block_lookups"] = stats.crossblock
@@ -454,19 +604,23 @@ def run(tier, replay=None):
     chk.notes["ambiguous_nearest"] = stats.ambiguous_nearest
     chk.notes["pairs_collinear"] = stats.skipped_collinear
     chk.notes["pairs_not_collinear_but_abs_cos_ge_0.98"] = stats.skipped_near
-    chk.notes["cells_replayed"] = sorted(rcs)
-    nprop = len([v for v in viol if v[3] == "property"])
+    chk.notes["cells_replayed"] = sorted(set(c for c, k in rcs))
+    nprop = len([v for v in viol if v[4] in ("property", "trace")])
     # (the counters only cover ring pairs whose kept list the model explains: with violations pending the
     #  violations are the result, not a vacuity complaint)
     if nprop == 0 and (stats.calls < 1000 or stats.multi < 10 or stats.crossblock < 10 or stats.dedup < 10):
         raise common.MachineryError("vacuity: %d orient calls, %d multi-class, %d cross-block, %d merging lookups"
                                     % (stats.calls, stats.multi, stats.crossblock, stats.dedup))
+    nscaled = len([1 for c, k in rcs if k != 0])
+    if nprop == 0 and (nscaled == 0 or stats.law_exact + stats.law_differs < 100 * nscaled or stats.direct_routes < 1000):
+        raise common.MachineryError("vacuity: %d scaled instances, %d scale law comparisons, %d direct route pairs"
+                                    % (nscaled, stats.law_exact + stats.law_differs, stats.direct_routes))
     hists = tlc_cache(chk)
     if tier == "quick":
         hists = hists[::8]
-    ccell = "hexP" if "hexP" in rcs else sorted(rcs)[0]
+    ccell = "hexP" if ("hexP", 0) in rcs else sorted(rcs)[0][0]
     for kind, text, ex in replay_cache(chk, ucmod, cells[ccell], nr, hists):
-        viol.append((ccell, 1, 1, kind, text, ex))
+        viol.append((ccell, 0, 1, 1, kind, text, ex))
     report(chk, cells, nr, tier, viol)
     chk.exhaustive = (tier == "thorough") and not chk.notes["cells_set_aside_ring_table_differs"]
     if tier == "thorough":
@@ -489,7 +643,7 @@ def selftest(ucmod=None, rt=None, cells=None, nr=4):
     base = None
     for pert in (None, "drop", "dup", "flip"):
         chk = common.Check(PROP, "selftest")
-        stats, viol, _ = process(chk, ucmod, rt, {cid: cells[cid]}, nr, "quick", only=(cid, 1, 3), perturb=pert)
+        stats, viol, _ = process(chk, ucmod, rt, {cid: cells[cid]}, nr, "quick", only=(cid, 1, 3, 0), perturb=pert)
         if pert is None:
             base = viol
             if viol:
@@ -505,8 +659,50 @@ def selftest(ucmod=None, rt=None, cells=None, nr=4):
         return p[:-1], c[:-1], m[:-1]
     ucmod.filter_pairs = edited
     try:
-        stats, viol, _ = process(chk, ucmod, rt, {cid: cells[cid]}, nr, "quick", only=(cid, 1, 3))
+        stats, viol, _ = process(chk, ucmod, rt, {cid: cells[cid]}, nr, "quick", only=(cid, 1, 3, 0))
     finally:
         ucmod.filter_pairs = orig
     if not viol:
         raise common.MachineryError("selftest: truncated kept list accepted")
+    # a cosine table that is not the ring pair's (same ring: lower triangle flagged collinear) makes the recorded order
+    # invalid: must come out as a violation of the tree (kind "trace"), not as a machinery error
+    chk = common.Check(PROP, "selftest")
+    orig_cos = ucmod.cosangles_many
+
+    def tampered(h1, h2, gi):
+        c = np.array(orig_cos(h1, h2, gi), float)
+        if len(h1) == len(h2):
+            c[np.tril_indices(len(h1))] = 1.0
+        return c
+    ucmod.cosangles_many = tampered
+    try:
+        stats, viol, _ = process(chk, ucmod, rt, {cid: cells[cid]}, nr, "quick", only=(cid, 3, 3, 0))
+    finally:
+        ucmod.cosangles_many = orig_cos
+    if not any(v[4] == "trace" for v in viol):
+        raise common.MachineryError("selftest: an order made from a corrupted cosine table was not reported")
+    # an absolute threshold on |g1 x g2| inside the orientation kernel: invisible at k = 0, must be found on the
+    # scaled cell (the scale family and the direct routes are bound)
+    kbig = max(cells[cid].get("scales", [0]))
+    if kbig > 0:
+        origq = ucmod.cImageD11.quickorient
+
+        def guarded(ubi, bt):
+            g3 = np.cross(ubi[0], ubi[1])
+            if math.sqrt(float(np.dot(g3, g3))) < 1e-3:
+                ubi[1] = np.cross(ubi[0], [0.3, 0.5, 0.7])
+            return origq(ubi, bt)
+        ucmod.cImageD11.quickorient = guarded
+        try:
+            chk = common.Check(PROP, "selftest")
+            stats, viol0, _ = process(chk, ucmod, rt, {cid: cells[cid]}, nr, "quick", only=(cid, 1, 3, 0))
+            chk = common.Check(PROP, "selftest")
+            stats, violk, _ = process(chk, ucmod, rt, {cid: cells[cid]}, nr, "quick", only=(cid, 1, 3, kbig))
+        finally:
+            ucmod.cImageD11.quickorient = origq
+        if [v for v in viol0 if v[4] == "property"]:
+            raise common.MachineryError("selftest: the 1e-3 guard is visible on the unscaled cell (scale family not needed?)")
+        if not [v for v in violk if v[4] == "property" and v[1] == kbig]:
+            raise common.MachineryError("selftest: an absolute threshold in quickorient was accepted on the cell scaled by 2^%d" % kbig)
+        if not [v for v in violk if v[4] == "conformance" and "scale law" in v[5]]:
+            raise common.MachineryError("selftest: scale law comparison did not notice the changed orientations")
